@@ -18,6 +18,10 @@ def run(pid, tier, seed, own):
         # quotas / targets / projects per lecturer with every kind of remainder (n2 mod n3 in 0..n3-1)
         traces += genprops.collect(rep, pool, tier, seed + 3, perturb=False, nseeds=1, maxn=2, rich=False, types={'spa'},
                                    counts={'n1': {2}, 'n2': {5, 6, 7}, 'n3': {4, 5}}, label='spread stress: n2 in 5..7, n3 in 4..5', only_twosided=two)
+        if 'C08' in own:
+            # many instances in one run: file names 0.txt .. 11.txt
+            traces += genprops.collect(rep, pool, tier, seed + 4, perturb=False, nseeds=1, maxn=1, rich=False, numinsts={12},
+                                       counts={'n1': {1, 2}, 'n2': {1}, 'n3': {1}}, label='twelve instances per run')
         if not q:
             traces += genprops.collect(rep, pool, tier, seed + 2, perturb=False, nseeds=1, maxn=4, rich=False, label='counts <= 4', only_twosided=two)
         # the possibility statement "every list length in [pmin, pmax] can occur": extra seeds for some vectors
